@@ -11,6 +11,7 @@ import ZepidVerif.Model.Ipcw
 import ZepidVerif.Model.Stochastic
 import ZepidVerif.Gen.Stoch
 import ZepidVerif.Gen.Ipcw
+import ZepidVerif.Gen.Ipmw
 namespace ZVD
 open ZV ZV.Std
 
@@ -117,6 +118,13 @@ def opIpmw (a : Args) : Except String String := do
   match Ipmw.ipmw rows k stab nfun dfun with
   | .error e => pure ("err " ++ showErr e)
   | .ok o =>
+    -- the weights come from the definitions regenerated from the text of `_monotone_variables` / `_single_variable` and
+    -- `fit` (`Gen/Ipmw.lean`); which of the two runs (`regression_models`' dispatch on overall uniformity) and the
+    -- fitting plan stay with the hand model
+    let ws := rows.map fun r =>
+      if Ipmw.overallUniform rows k then Gen.ipmw_single_weight stab nfun dfun r
+      else Gen.ipmw_monotone_weight stab k (Ipmw.pairUniform rows) nfun dfun r
+    let o : Ipmw.Out F := ⟨ws, o.plan⟩
     let vars := o.plan.map (·.1)
     let sets := ";".intercalate (o.plan.map fun p => if p.2.isEmpty then "[]" else "|".intercalate (p.2.map toString))
     pure s!"ok w={showList (showOpt sh) o.weights} vars={showList toString vars} sets={sets}"
